@@ -28,6 +28,7 @@ import time
 
 VERIF = os.path.dirname(os.path.dirname(os.path.abspath(__file__)))
 BUILD = os.environ.get("VERIF_BUILD") or os.path.join(VERIF, ".build")
+REPO = os.environ.get("VERIF_REPO") or "/repo"
 
 
 class Unsupported(Exception):
@@ -46,7 +47,7 @@ def dump_mir():
     cmd = ["cargo", "+nightly", "rustc", "--offline", "-p", "dasp_signal", "--lib", "--target-dir", tdir, "--",
            "-Zunpretty=mir", "-C", "debug-assertions=off", "-C", "overflow-checks=on"]
     t0 = time.time()
-    p = subprocess.run(cmd, cwd="/repo", env=env, stdout=subprocess.PIPE, stderr=subprocess.PIPE, text=True, timeout=900)
+    p = subprocess.run(cmd, cwd=REPO, env=env, stdout=subprocess.PIPE, stderr=subprocess.PIPE, text=True, timeout=900)
     shutil.rmtree(tdir, ignore_errors=True)
     if p.returncode != 0 or "fn " not in p.stdout:
         raise Unsupported("MIR dump failed: " + p.stderr[-800:])
@@ -445,8 +446,8 @@ def replay(cx, log=print):
     os.makedirs(os.path.join(d, "src"))
     with open(os.path.join(d, "Cargo.toml"), "w") as f:
         f.write('[package]\nname = "replay_phase"\nversion = "0.0.0"\nedition = "2021"\n[workspace]\n[dependencies]\n'
-                'dasp_signal = { path = "/repo/dasp_signal" }\n')
-    shutil.copy("/repo/Cargo.lock", d)
+                'dasp_signal = { path = "%s/dasp_signal" }\n' % REPO)
+    shutil.copy(os.path.join(REPO, "Cargo.lock"), d)
     with open(os.path.join(d, "src", "main.rs"), "w") as f:
         f.write(REPLAY_MAIN)
     env = dict(os.environ)
